@@ -613,6 +613,56 @@ func (m *l0Machine) scriptBatchUpdateVsDelete(rt *rapid.T, a, b int) {
 	}
 }
 
+// scriptThreeWayKey queues: everybody in sync with key k present; then three replicas, concurrently and each after
+// 0-3 operations on other keys (so that their clocks differ), remove k, put k and remove k again; their pushes
+// reach the log in a drawn order; everybody in sync. Whatever the order of arrival, the newest of the three wins.
+func (m *l0Machine) scriptThreeWayKey(rt *rapid.T) {
+	n := len(m.w.Reps)
+	perm := rapid.Permutation([]int{0, 1, 2}).Draw(rt, "s3.roles") // who removes first / puts / removes
+	base := rapid.IntRange(0, n-3).Draw(rt, "s3.base")
+	who := []int{base + perm[0], base + perm[1], base + perm[2]}
+	key := "s3k"
+	put := func(r int, k string, v sim.Val) *l0Action {
+		call := sim.Call{M: "Put", Key: k, Vals: []sim.Val{v}}
+		if m.cfg.Kind == sim.Document {
+			call = sim.Call{M: "PutToObject", Key: k, Vals: []sim.Val{v}}
+		}
+		return &l0Action{K: "local", R: r, Call: &call}
+	}
+	rm := func(r int) *l0Action {
+		call := sim.Call{M: "Remove", Key: key}
+		if m.cfg.Kind == sim.Document {
+			call = sim.Call{M: "DeleteInObject", Key: key}
+		}
+		return &l0Action{K: "local", R: r, Call: &call}
+	}
+	m.script = []func(rt *rapid.T) *l0Action{
+		func(rt *rapid.T) *l0Action { return put(who[0], key, sim.S("base")) },
+		func(rt *rapid.T) *l0Action { return &l0Action{K: "quiesce"} },
+	}
+	for i, r := range who {
+		i, r := i, r
+		for p, np := 0, rapid.IntRange(0, 3).Draw(rt, fmt.Sprintf("s3.pad%d", i)); p < np; p++ {
+			p := p
+			m.script = append(m.script, func(rt *rapid.T) *l0Action { return put(r, fmt.Sprintf("pad%d", r), sim.I(int64(p))) })
+		}
+		if i == 1 {
+			m.script = append(m.script, func(rt *rapid.T) *l0Action { return put(r, key, sim.S("between")) })
+		} else {
+			m.script = append(m.script, func(rt *rapid.T) *l0Action { return rm(r) })
+		}
+	}
+	// the pushes reach the log in a drawn order
+	for _, i := range rapid.Permutation([]int{0, 1, 2}).Draw(rt, "s3.pushorder") {
+		r := who[i]
+		m.script = append(m.script,
+			func(rt *rapid.T) *l0Action { return &l0Action{K: "start", R: r} },
+			func(rt *rapid.T) *l0Action { return &l0Action{K: "finish", R: r} })
+	}
+	m.script = append(m.script, func(rt *rapid.T) *l0Action { return &l0Action{K: "quiesce"} })
+	m.labels["script:remove-put-remove-of-one-key-by-three-replicas"] = true
+}
+
 func (m *l0Machine) gen(rt *rapid.T) l0Action {
 	for len(m.script) > 0 {
 		f := m.script[0]
@@ -624,6 +674,10 @@ func (m *l0Machine) gen(rt *rapid.T) l0Action {
 	n := len(m.w.Reps)
 	r := rapid.IntRange(0, n-1).Draw(rt, "replica")
 	c := rapid.IntRange(0, 99).Draw(rt, "action")
+	if (m.cfg.Kind == sim.Map || m.cfg.Kind == sim.Document) && !m.cfg.Tagged && !m.cfg.ArrayOnly && n >= 3 && rapid.IntRange(0, 19).Draw(rt, "scripted3") == 0 {
+		m.scriptThreeWayKey(rt)
+		return m.gen(rt)
+	}
 	if m.cfg.Kind == sim.Document && !m.cfg.Tagged && n >= 2 && rapid.IntRange(0, 11).Draw(rt, "scripted") == 0 {
 		b := rapid.IntRange(0, n-2).Draw(rt, "s.other")
 		if b >= r {
